@@ -48,6 +48,7 @@ def run_rules(mod, chk):
         generic.config_not_mutated(chk)
         generic.class_state_not_shared(chk)
         generic.per_trip_objects_registered(chk)
+        generic.containers_not_mutated_while_iterated(chk)
     chk.repo.on_func = None
     return chk
 
